@@ -3,6 +3,51 @@ what counts as a non-trivial case, the theorems, and the classifier that turns a
 into a signature for known_findings.json."""
 
 PROPS = {
+    'C12': {   'assumptions': [   'every Write on the Prometheus side accepts at least one byte or fails (io.Writer contract); failing writes are outside the '
+                       'property',
+                       "lines within the parser's 256 KiB limit; gzip decoding is a function applied before the tee (chunks are the decompressed "
+                       'reads)'],
+    'engines': [('proxy', 600, 12000, ['-propok', 'c12_case', '-shardsize', '100'])],
+    'level_note': 'Trusted: Coq kernel; hand-written model of tee + consumer + ResponseWriter automaton; multi-megabyte payloads and the 256 KiB '
+                  'line limit are not in the Coq-evaluated cases (payloads <= a few KB).',
+    'level_text': 'Proof: for every alphabet, body, split into read chunks, write schedule of accepting writes, content type, assigned or not: '
+                  'status 200, body = concatenation of the chunks, content type set before the first byte, response completed; plus the prefix '
+                  'invariant for every schedule. Tied to the code by differential runs with scheduled readers and writers.',
+    'rule': 'one PRNG: requests with job known/unknown, hash parseable or not, target assigned or not, stop reason set or not; target response = '
+            'connection error, non-200 status, or 200 with a body of 0-30 (up to 120 thorough) exposition lines (comments, blank and unparseable '
+            'lines, long label values, with/without trailing newline), identity or gzip, served through a reader returning scheduled chunk sizes '
+            "(1..4000 bytes) and ending in EOF, EOF together with the last data, an error, or a 'connection reset by peer' error after a random "
+            'number of reads (incl. before the first byte); Prometheus-side ResponseWriter with scheduled short writes (1,2,3,5,50 bytes) and, '
+            'rarely, a failing write. Observed: status, Content-Type at header time, body bytes, every Write call (offered, accepted), abort, and '
+            "the target's status entry. non-trivial = a 200 response with a non-empty body was scripted; distinct by input",
+    'theorems': 'C12_bytes C12_prefix C12_tee_chunk',
+    'trusted_base': [   'model Model/Proxy.v hand-written from proxy.go/scraper.go/reader.go + the read loop of the vendored exposition parser as an '
+                        'abstract consumer; tie = differential run of the real Proxy.ServeHTTP (exact equality incl. the sequence of Write calls '
+                        'when no gzip layer is in between)',
+                        'the http.ResponseWriter automaton (first Write sends 200, later WriteHeader ignored, ErrAbortHandler aborts) is modelled, '
+                        'not verified']},
+    'C13': {   'assumptions': [   'time-outs are modelled as the source ending in an error at some offset; real timer races are not exhibited by the model',
+                       'a read error whose text contains "reset by peer" is treated as end of stream by the vendored parser (known finding)'],
+    'engines': [   ('proxy', 600, 12000, ['-propok', 'c13_case', '-shardsize', '100']),
+                   ('sidecar', 300, 6000, ['-propok', 'c13_counter_case', '-shardsize', '100'])],
+    'level_note': 'Trusted: Coq kernel; hand-written model; ResponseWriter/abort automaton modelled after net/http, checked against a scheduled '
+                  'writer, not against a real connection.',
+    'level_text': 'Proof: every failure kind at every chunk offset (before or after the header went out), and a configured stop reason, gives a '
+                  'non-200 status or an aborted response; health/counter bookkeeping theorems; the EOF-like reset case is proved to be a truncated '
+                  'success in the model (_refuted, known finding). Partial: real TCP/timer behaviour is below the model.',
+    'rule': 'one PRNG: requests with job known/unknown, hash parseable or not, target assigned or not, stop reason set or not; target response = '
+            'connection error, non-200 status, or 200 with a body of 0-30 (up to 120 thorough) exposition lines (comments, blank and unparseable '
+            'lines, long label values, with/without trailing newline), identity or gzip, served through a reader returning scheduled chunk sizes '
+            "(1..4000 bytes) and ending in EOF, EOF together with the last data, an error, or a 'connection reset by peer' error after a random "
+            'number of reads (incl. before the first byte); Prometheus-side ResponseWriter with scheduled short writes (1,2,3,5,50 bytes) and, '
+            'rarely, a failing write. Observed: status, Content-Type at header time, body bytes, every Write call (offered, accepted), abort, and '
+            "the target's status entry. non-trivial = a 200 response with a non-empty body was scripted; distinct by input",
+    'theorems': 'C13_failure_visible C13_bookkeeping C13_rejected_not_counted C13_eoflike_refuted',
+    'trusted_base': [   'model Model/Proxy.v hand-written from proxy.go/scraper.go/reader.go + the read loop of the vendored exposition parser as an '
+                        'abstract consumer; tie = differential run of the real Proxy.ServeHTTP (exact equality incl. the sequence of Write calls '
+                        'when no gzip layer is in between)',
+                        'the http.ResponseWriter automaton (first Write sends 200, later WriteHeader ignored, ErrAbortHandler aborts) is modelled, '
+                        'not verified']},
     'C19': {
         'engines': [('coord2', 600, 12000, ['-shardsize', '100'])],
         'rule': 'two replicas A,B from the coord generator sharing options, discovery and explorer results (explorer objects never scraped: '
@@ -207,6 +252,11 @@ def classify(prop, engine, case):
         sc = ob.get('Scales') or []
         tag = 'panic' if ob.get('Panic') else ('early-request' if len(sc) > 1 else ('scale-below-current' if sc and sc[-1] < n else 'plan'))
         return '%s-coord-%s' % (prop, tag)
+    if engine == 'proxy':
+        end = inp.get('End')
+        if inp.get('Resp') == 'body' and end == 'reset':
+            return 'C13-eoflike-reset'
+        return '%s-proxy-%s-%s' % (prop, inp.get('Resp'), end)
     if engine in ('sidecar', 'stats'):
         return '%s-%s' % (prop, engine)
     if prop == 'C18':
